@@ -100,6 +100,7 @@ def textFeatures (cs : List Char) : String :=
 /-- C14 oracle for reading: the implementation against the split-based specification. -/
 def oracleParse (cs : List Char) (impl : String) : String :=
   if impl = "panic" then "fail:C17:hosts-parse-panic"
+  else if impl = "abort" then "fail:C17:hosts-process-aborted-stack-or-allocation"
   else
     match HSpec.parse cs with
     | .ok h =>
@@ -237,6 +238,11 @@ def cmdHostsMerge (a b impl : String) : Result :=
   | _, _ => bad "hostsdump"
 
 /-- `from_zone_lossy` and `try_from` on an arbitrary zone (built from a zonespec). -/
+def showIp : Option IpAddr → String
+  | none => "none"
+  | some (.v4 a) => s!"v4:{a}"
+  | some (.v6 gs) => "v6:" ++ showGroups gs
+
 def cmdHostsLossy (zspec impl : String) : Result :=
   match parseZoneSpec zspec with
   | none => bad "zonespec"
@@ -247,13 +253,28 @@ def cmdHostsLossy (zspec impl : String) : Result :=
       let l := Hosts.fromZoneLossy z
       let t := Hosts.tryFromZone z
       { model := "L:" ++ showHostsDump l ++ "!T:" ++ showTryFrom t,
-        oracle := if impl = "panic" then "fail:C17:hosts-lossy-panic" else "ok",
+        oracle :=
+          if impl = "panic" then "fail:C17:hosts-lossy-panic"
+          else
+            -- independent reading: every name holding an A (AAAA) record in the zone appears in the
+            -- v4 (v6) map with one of its addresses, and nothing else appears
+            match (impl.splitOn "!T:").headD "" |>.drop 2 |>.toString |> parseHostsDump with
+            | none => "fail:C14:unparsable-impl-output"
+            | some h =>
+              let recs := z.allRecords
+              let okFam (isV4 : Bool) : Bool :=
+                recs.all (fun (n, zrs) =>
+                  let addrs := zrs.filterMap (fun zr => match zr.fields with
+                    | [.a x] => if isV4 && zr.rtype == RT_A then some (showIp (some (.v4 x))) else none
+                    | [.aaaa g] => if !isV4 && zr.rtype == RT_AAAA then some (showIp (some (.v6 g))) else none
+                    | _ => none)
+                  let got : Option String := if isV4 then (AddrMap.get h.v4 n).map (fun x => showIp (some (.v4 x)))
+                                             else (AddrMap.get h.v6 n).map (fun g => showIp (some (.v6 g)))
+                  match got with
+                  | none => addrs.isEmpty
+                  | some a => addrs.contains a)
+              if okFam true && okFam false then "ok" else "fail:C14:zone-to-hosts-drops-or-invents-a-mapping",
         tags := match t with | .ok _ => "try-ok" | .error .hasWildcardRecords => "try-wild" | .error _ => "try-other" }
-
-def showIp : Option IpAddr → String
-  | none => "none"
-  | some (.v4 a) => s!"v4:{a}"
-  | some (.v6 gs) => "v6:" ++ showGroups gs
 
 def parseIpVal (s : String) : Option IpAddr :=
   match s.splitOn ":" with
